@@ -397,6 +397,83 @@ func ZZ_C18_SetValuesOptions() {
 	zzvf.Reach("setvalues-options")
 }
 
+// The suffix option (and prefix + suffix together): a key is completed with the affix it lacks and
+// is never given an affix twice, whether the caller passes the bare key, the key carrying one affix or
+// the complete key; the existing line is updated in place and no second line appears.
+//vf: paths=2000
+func ZZ_C18_SetValuesSuffix() {
+	home := zzvf.FsHome()
+	defer zzvf.FsCleanup()
+	zzvf.Clock = 1000000
+	path := filepath.Join(home, "whatap.conf")
+	both := zzvf.Choose(2) == 1
+	full := "zzk1_dev"
+	opts := []FileConfigOption{WithSuffix("_dev")}
+	keys := []string{"zzk1", "zzk1_dev"}
+	if both {
+		full = "whatap.zzk1_dev"
+		opts = append(opts, WithPrefix("whatap."))
+		keys = []string{"zzk1", "zzk1_dev", "whatap.zzk1", "whatap.zzk1_dev"}
+	}
+	zzvf.FsWrite(path, []byte(full+"=one\nzzother=keep\n"), zzT0)
+	c := zzConf(home, nil, opts...)
+	v := zzFrom(zzPlainAlpha, 2)
+	kv := map[string]string{keys[zzvf.Choose(len(keys))]: v}
+	c.SetValues(&kv)
+	zzvf.Clock += 10000
+	c2 := zzConf(home, nil)
+	zzvf.Assert(c2.GetValue(full) == v, "setvalues-suffix/complete-key-holds-the-written-value")
+	zzvf.Assert(c2.GetValue("zzother") == "keep", "setvalues-suffix/other-key-kept")
+	raw, _ := zzvf.FsRead(path)
+	zzvf.Assert(string(raw) == full+"="+v+"\nzzother=keep\n", "setvalues-suffix/file-is-the-old-file-with-the-one-line-updated")
+	zzvf.Reach("setvalues-suffix")
+}
+
+// Key shapes: every key the properties syntax and the write-back's notion of a managed key ("starts
+// with a word character": letter, DIGIT or underscore) allow -- first character from each class, dots
+// and dashes inside -- is updated in place when present and appended when absent, and reads back.
+//vf: paths=4000
+func ZZ_C18_SetValuesKeyShapes() {
+	home := zzvf.FsHome()
+	defer zzvf.FsCleanup()
+	zzvf.Clock = 1000000
+	path := filepath.Join(home, "whatap.conf")
+	keys := []string{"zzk", "Zzk", "_zzk", "4zzk", "404_page", "2fa.enabled", "zz-k.9", "z"}
+	key := keys[zzvf.Choose(len(keys))]
+	present := zzvf.Choose(2) == 1
+	file := "# head\nzzother=keep\n"
+	if present {
+		file = "# head\n" + key + "=one\nzzother=keep\n"
+	}
+	zzvf.FsWrite(path, []byte(file), zzT0)
+	c := zzConf(home, nil)
+	v := zzFrom(zzPlainAlpha, 2)
+	kv := map[string]string{key: v}
+	c.SetValues(&kv)
+	zzvf.Clock += 10000
+	c2 := zzConf(home, nil)
+	cls := "letter-first"
+	if key[0] >= '0' && key[0] <= '9' {
+		cls = "digit-first"
+	} else if key[0] == '_' {
+		cls = "underscore-first"
+	}
+	if present {
+		cls += "/present"
+	} else {
+		cls += "/absent"
+	}
+	zzvf.Assert(c2.GetValue(key) == v, "setvalues-keyshapes/written-value-reads-back/"+cls)
+	zzvf.Assert(c2.GetValue("zzother") == "keep", "setvalues-keyshapes/other-key-kept/"+cls)
+	raw, _ := zzvf.FsRead(path)
+	want := "# head\nzzother=keep\n" + key + "=" + v + "\n"
+	if present {
+		want = "# head\n" + key + "=" + v + "\nzzother=keep\n"
+	}
+	zzvf.Assert(string(raw) == want, "setvalues-keyshapes/file-content/"+cls)
+	zzvf.Reach("setvalues-keyshapes")
+}
+
 // At no instant during a write-back does the file hold anything but the old or the new
 // complete content: the process stops after the k-th mutating file operation of
 // SetValues (a stopping write may be partial: 0, 3 or all bytes).
